@@ -1,0 +1,22 @@
+//go:build verif
+
+package webp
+
+import "github.com/deepteams/webp/internal/lossy"
+
+// Verification-only re-exports of the ALPH codec (property C07/C04).
+
+func VerifAlphaFilter(f int, in []byte, w, h int) []byte { return lossy.VerifAlphaFilter(f, in, w, h) }
+func VerifAlphaUnfilter(f int, data []byte, w, h int) []byte {
+	return lossy.VerifAlphaUnfilter(f, data, w, h)
+}
+func VerifEncodeAlphaInternal(data []byte, w, h, method, filter int, reduce bool, effort int) ([]byte, error) {
+	return lossy.VerifEncodeAlphaInternal(data, w, h, method, filter, reduce, effort)
+}
+func VerifQuantizeLevels(data []byte, w, h, n int) []byte {
+	return lossy.VerifQuantizeLevels(data, w, h, n)
+}
+func VerifDecodeAlpha(data []byte, w, h int) ([]byte, error) { return lossy.DecodeAlpha(data, w, h) }
+func VerifEncodeAlpha(alpha []byte, w, h, quality, method, filter, effort int) ([]byte, error) {
+	return lossy.EncodeAlpha(alpha, w, h, &lossy.AlphaEncoderConfig{Quality: quality, Method: method, Filter: filter, EffortLevel: effort})
+}
